@@ -482,23 +482,34 @@ pub fn eval(line: &str) -> String {
     }
 }
 
+/// The same loop, except that it never blocks: it still asks `can_block_update_idle_waiting` every
+/// millisecond (that call also advances the idle clock) but ticks regardless of the answer.
 fn run_hist_always_ticking(r: &mut Runner, hist: &[KEv]) {
     for e in hist {
         match e {
             KEv::L(HEv::Press(_, y)) => {
                 r.input(*y, KeyValue::Press);
                 r.tick();
+                r.ms_elapsed = 1;
             }
             KEv::L(HEv::Release(_, y)) => {
                 r.input(*y, KeyValue::Release);
                 r.tick();
+                r.ms_elapsed = 1;
             }
             KEv::Rep(y) => r.input(*y, KeyValue::Repeat),
             KEv::Tap(y) => r.input(*y, KeyValue::Tap),
             KEv::Fake(a, x, y) => r.fake(*a, *x, *y),
-            KEv::L(HEv::Tick(n)) | KEv::Gap(n) => {
+            KEv::L(HEv::Tick(n)) => {
                 for _ in 0..*n {
                     r.tick();
+                }
+            }
+            KEv::Gap(n) => {
+                for _ in 0..*n {
+                    let _ = r.k.can_block_update_idle_waiting(r.ms_elapsed);
+                    r.tick();
+                    r.ms_elapsed = 1;
                 }
             }
         }
